@@ -49,6 +49,8 @@ structure Inv (sch : Sch) (r : Res) : Prop where
   memo : ∀ kv ∈ r.memo, kv.2 = sch.pure kv.1
   /-- a recorded (type, constraint) pair means the constraint HAS been widened for it -/
   pairs : ∀ d t c, XsiEntry.pair d t c ∈ r.xsi → ∀ d' ∈ sch.widen c d t, (c, d') ∈ r.sel
+  /-- only namespaces that have a location get loaded on demand -/
+  loadedOK : ∀ n ∈ r.loaded, n ∈ sch.loadable
 
 theorem inv_init (sch : Sch) : Inv sch Res.init := by
   constructor <;> simp [Res.init]
@@ -68,13 +70,13 @@ theorem inv_apply {sch : Sch} {r : Res} {w : Write} (h : Inv sch r) (hw : wOK sc
     Inv sch (r.apply w) := by
   cases w with
   | elem c d =>
-    refine ⟨h.sel, ?_, h.memo, h.pairs⟩
+    refine ⟨h.sel, ?_, h.memo, h.pairs, h.loadedOK⟩
     intro p hp
     rcases mem_ins.1 hp with rfl | hp
     · exact hw
     · exact h.elems p hp
   | sel c d =>
-    refine ⟨?_, h.elems, h.memo, ?_⟩
+    refine ⟨?_, h.elems, h.memo, ?_, h.loadedOK⟩
     · intro p hp
       rcases mem_ins.1 hp with rfl | hp
       · exact hw
@@ -82,13 +84,13 @@ theorem inv_apply {sch : Sch} {r : Res} {w : Write} (h : Inv sch r) (hw : wOK sc
     · intro d1 t1 c1 hx d' hd'
       exact mem_ins.2 (Or.inr (h.pairs d1 t1 c1 hx d' hd'))
   | pair d t c =>
-    refine ⟨h.sel, h.elems, h.memo, ?_⟩
+    refine ⟨h.sel, h.elems, h.memo, ?_, h.loadedOK⟩
     intro d1 t1 c1 hx d' hd'
     rcases mem_ins.1 hx with heq | hx
     · cases heq; exact hw d' hd'
     · exact h.pairs d1 t1 c1 hx d' hd'
   | type d t =>
-    refine ⟨h.sel, h.elems, h.memo, ?_⟩
+    refine ⟨h.sel, h.elems, h.memo, ?_, h.loadedOK⟩
     intro d1 t1 c1 hx d' hd'
     rcases mem_ins.1 hx with heq | hx
     · cases heq
@@ -326,6 +328,53 @@ theorem allOK_stepWrites (sch : Sch) (m : Mode) (r : Res) (ctx : Ctx) (d t) :
   · exact allOK_xsiWritesOld sch r ctx d t
   · exact allOK_xsiWrites sch r ctx d t
   · exact allOK_xsiWrites sch r ctx d t
+  · exact allOK_xsiWrites sch r ctx d t
+
+theorem loaded_apply (r : Res) (w : Write) : (r.apply w).loaded = r.loaded := by cases w <;> rfl
+theorem stale_apply (r : Res) (w : Write) : (r.apply w).stale = r.stale := by cases w <;> rfl
+
+theorem loaded_writes : ∀ (ws : List Write) (r : Res), (applyWrites r ws).loaded = r.loaded
+  | [], _ => rfl
+  | w :: ws, r => by rw [applyWrites_cons, loaded_writes ws, loaded_apply]
+
+theorem stale_writes : ∀ (ws : List Write) (r : Res), (applyWrites r ws).stale = r.stale
+  | [], _ => rfl
+  | w :: ws, r => by rw [applyWrites_cons, stale_writes ws, stale_apply]
+
+theorem inv_rebuild {sch : Sch} {r : Res} {n : Nat} (h : Inv sch r) (hn : n ∈ sch.loadable) :
+    Inv sch (rebuild r n) := by
+  refine ⟨?_, ?_, ?_, ?_, ?_⟩ <;> simp only [rebuild]
+  · intro p hp; simp at hp
+  · intro p hp; simp at hp
+  · intro p hp; simp at hp
+  · intro d t c hx; simp at hx
+  · intro k hk
+    rcases List.mem_cons.1 hk with rfl | hk
+    · exact hn
+    · exact h.loadedOK k hk
+
+theorem wild_fst (sch : Sch) (m : Mode) (r : Res) (a : Bool) (pc : PC) (n : Nat) :
+    (wildStep sch m r a pc n).1 = r ∨
+    ((wildStep sch m r a pc n).1 = rebuild r n ∧ sch.loadable.contains n = true ∧ isLoaded sch r n = false) := by
+  cases pc with
+  | skip => exact Or.inl rfl
+  | lax =>
+    simp only [wildStep]
+    repeat' split
+    all_goals first | exact Or.inl rfl | (refine Or.inr ⟨rfl, ?_, ?_⟩ <;> simp_all)
+  | strict =>
+    simp only [wildStep]
+    repeat' split
+    all_goals first | exact Or.inl rfl | (refine Or.inr ⟨rfl, ?_, ?_⟩ <;> simp_all)
+
+theorem inv_wild {sch : Sch} (m : Mode) {r : Res} (a : Bool) (pc : PC) (n : Nat) (h : Inv sch r) :
+    Inv sch (wildStep sch m r a pc n).1 := by
+  rcases wild_fst sch m r a pc n with e | ⟨e, hl, _⟩
+  · rw [e]; exact h
+  · rw [e]; exact inv_rebuild h (by simpa using hl)
+
+theorem inv_unstale {sch : Sch} {r : Res} (h : Inv sch r) : Inv sch { r with stale := false } :=
+  ⟨h.sel, h.elems, h.memo, h.pairs, h.loadedOK⟩
 
 theorem inv_step (sch : Sch) (m : Mode) (s : Res × Ctx) (x : Step) (h : Inv sch s.1) :
     Inv sch (step sch m s x).1.1 := by
@@ -333,20 +382,24 @@ theorem inv_step (sch : Sch) (m : Mode) (s : Res × Ctx) (x : Step) (h : Inv sch
   | enter ids => exact h
   | xsiType d t b =>
     simp only [step]
-    exact inv_applyWrites _ _ h (allOK_budgeted b (allOK_stepWrites sch m s.1 s.2 d t))
+    split
+    · exact h
+    · exact inv_applyWrites _ _ h (allOK_budgeted b (allOK_stepWrites sch m s.1 s.2 d t))
   | collect d => exact h
   | leave ids => exact h
   | setCtx ctx => exact h
+  | wild a pc n => exact inv_wild m a pc n h
+  | nsRead n => exact h
   | memoCall k =>
     simp only [step]
     split
     · exact h
-    · refine ⟨h.sel, h.elems, ?_, h.pairs⟩
+    · refine ⟨h.sel, h.elems, ?_, h.pairs, h.loadedOK⟩
       intro kv hkv
       rcases List.mem_cons.1 hkv with rfl | hkv
       · rfl
       · exact h.memo kv hkv
-  | scratchUse dirt => exact ⟨h.sel, h.elems, h.memo, h.pairs⟩
+  | scratchUse dirt => exact ⟨h.sel, h.elems, h.memo, h.pairs, h.loadedOK⟩
 
 theorem inv_run (sch : Sch) (m : Mode) : ∀ (doc : List Step) (s : Res × Ctx), Inv sch s.1 →
     Inv sch (run sch m s doc).1.1
@@ -360,16 +413,21 @@ theorem step_ctx (sch : Sch) (m : Mode) (r1 r2 : Res) (ctx : Ctx) (x : Step) :
     (step sch m (r1, ctx) x).1.2 = (step sch m (r2, ctx) x).1.2 := by
   cases x <;> simp only [step]
   case memoCall k => split <;> split <;> rfl
+  case xsiType d t b => split <;> split <;> rfl
 
 /-- the residue only grows -/
-theorem step_mono (sch : Sch) (m : Mode) (s : Res × Ctx) (x : Step) :
+theorem step_mono (sch : Sch) (m : Mode) (s : Res × Ctx) (x : Step) (hw : isWild x = false) :
     (∀ p ∈ s.1.sel, p ∈ (step sch m s x).1.1.sel) ∧ (∀ p ∈ s.1.elems, p ∈ (step sch m s x).1.1.elems) ∧
     (∀ p ∈ s.1.xsi, p ∈ (step sch m s x).1.1.xsi) := by
   cases x with
   | xsiType d t b =>
     simp only [step]
-    exact ⟨fun p hp => sel_mono_writes _ _ hp, fun p hp => elems_mono_writes _ _ hp,
-      fun p hp => xsi_mono_writes _ _ hp⟩
+    split
+    · exact ⟨fun _ h => h, fun _ h => h, fun _ h => h⟩
+    · exact ⟨fun p hp => sel_mono_writes _ _ hp, fun p hp => elems_mono_writes _ _ hp,
+        fun p hp => xsi_mono_writes _ _ hp⟩
+  | wild a pc n => simp [isWild] at hw
+  | nsRead n => exact ⟨fun _ h => h, fun _ h => h, fun _ h => h⟩
   | memoCall k =>
     simp only [step]
     split <;> exact ⟨fun _ h => h, fun _ h => h, fun _ h => h⟩
@@ -379,14 +437,15 @@ theorem step_mono (sch : Sch) (m : Mode) (s : Res × Ctx) (x : Step) :
   | setCtx ctx => exact ⟨fun _ h => h, fun _ h => h, fun _ h => h⟩
   | scratchUse dirt => exact ⟨fun _ h => h, fun _ h => h, fun _ h => h⟩
 
-theorem run_mono (sch : Sch) (m : Mode) : ∀ (doc : List Step) (s : Res × Ctx),
+theorem run_mono (sch : Sch) (m : Mode) : ∀ (doc : List Step) (s : Res × Ctx), (doc.all fun x => !isWild x) = true →
     (∀ p ∈ s.1.sel, p ∈ (run sch m s doc).1.1.sel) ∧ (∀ p ∈ s.1.elems, p ∈ (run sch m s doc).1.1.elems) ∧
     (∀ p ∈ s.1.xsi, p ∈ (run sch m s doc).1.1.xsi)
-  | [], _ => ⟨fun _ h => h, fun _ h => h, fun _ h => h⟩
-  | x :: xs, s => by
+  | [], _, _ => ⟨fun _ h => h, fun _ h => h, fun _ h => h⟩
+  | x :: xs, s, hw => by
     simp only [run]
-    obtain ⟨a1, a2, a3⟩ := step_mono sch m s x
-    obtain ⟨b1, b2, b3⟩ := run_mono sch m xs (step sch m s x).1
+    simp only [List.all_cons, Bool.and_eq_true, Bool.not_eq_true'] at hw
+    obtain ⟨a1, a2, a3⟩ := step_mono sch m s x hw.1
+    obtain ⟨b1, b2, b3⟩ := run_mono sch m xs (step sch m s x).1 hw.2
     exact ⟨fun p h => b1 p (a1 p h), fun p h => b2 p (a2 p h), fun p h => b3 p (a3 p h)⟩
 
 /-! ### the used schema against the fresh one -/
@@ -396,28 +455,27 @@ structure Rel (sch : Sch) (r1 r2 : Res) : Prop where
   i1 : Inv sch r1
   i2 : Inv sch r2
   sub : ∀ p ∈ r2.sel, p ∈ r1.sel
+  s1 : r1.stale = false
+  s2 : r2.stale = false
 
 /-- the condition of `selfSufficient` for one step -/
 def stepOK (sch : Sch) (s : Res × Ctx) : Step → Bool
   | .collect d => s.2.all fun p => !p.2 || !widenableB sch p.1 d || isSel sch s.1 p.1 d
   | _ => true
 
-def stepComplete : Step → Bool
-  | .xsiType _ _ (some _) => false
-  | _ => true
-
 theorem selfSufficient_cons (sch : Sch) (s : Res × Ctx) (x : Step) (xs : List Step) :
-    selfSufficient sch s (x :: xs) = (stepOK sch s x && selfSufficient sch (step sch .current s x).1 xs) := by
+    selfSufficient sch s (x :: xs) = (stepOK sch s x && selfSufficient sch (step sch .gated s x).1 xs) := by
   cases x <;> rfl
 
-theorem complete_cons (x : Step) (xs : List Step) : complete (x :: xs) = (stepComplete x && complete xs) := by
-  cases x with
-  | xsiType d t b => cases b <;> simp [complete, stepComplete]
-  | _ => simp [complete, stepComplete]
+theorem plain_cons (x : Step) (xs : List Step) : plainDoc (x :: xs) = (stepPlain x && plainDoc xs) := by
+  simp [plainDoc]
+
+theorem stepPlain_notWild {x : Step} (h : stepPlain x = true) : isWild x = false := by
+  cases x <;> simp_all [stepPlain, isWild]
 
 theorem gate_congr (sch : Sch) (r1 r2 : Res) (ctx : Ctx) (d : Decl)
     (h : ∀ p ∈ ctx, p.2 = true → isSel sch r1 p.1 d = isSel sch r2 p.1 d) :
-    gate sch .current r1 ctx d = gate sch .current r2 ctx d := by
+    gate sch .gated r1 ctx d = gate sch .gated r2 ctx d := by
   simp only [gate]
   congr 1
   apply List.filter_congr
@@ -426,13 +484,31 @@ theorem gate_congr (sch : Sch) (r1 r2 : Res) (ctx : Ctx) (d : Decl)
   · simp
   · simp [h p hp hp2]
 
+theorem stale_step_plain (sch : Sch) (m : Mode) (r : Res) (ctx : Ctx) (x : Step) (hc : stepPlain x = true) :
+    (step sch m (r, ctx) x).1.1.stale = r.stale := by
+  cases x with
+  | xsiType d t b =>
+    simp only [step]
+    split
+    · rfl
+    · exact stale_writes _ _
+  | memoCall k => simp only [step]; split <;> rfl
+  | wild a pc n => simp [stepPlain] at hc
+  | nsRead n => simp [stepPlain] at hc
+  | enter ids => rfl
+  | collect d => rfl
+  | leave ids => rfl
+  | setCtx c => rfl
+  | scratchUse dirt => rfl
+
 theorem step_rel (sch : Sch) (r1 r2 : Res) (ctx : Ctx) (x : Step) (hrel : Rel sch r1 r2)
-    (hc : stepComplete x = true) (hok : stepOK sch (r2, ctx) x = true) :
-    (step sch .current (r1, ctx) x).2 = (step sch .current (r2, ctx) x).2 ∧
-    Rel sch (step sch .current (r1, ctx) x).1.1 (step sch .current (r2, ctx) x).1.1 := by
-  have i1 := inv_step sch .current (r1, ctx) x hrel.i1
-  have i2 := inv_step sch .current (r2, ctx) x hrel.i2
-  refine ⟨?_, i1, i2, ?_⟩
+    (hc : stepPlain x = true) (hok : stepOK sch (r2, ctx) x = true) :
+    (step sch .gated (r1, ctx) x).2 = (step sch .gated (r2, ctx) x).2 ∧
+    Rel sch (step sch .gated (r1, ctx) x).1.1 (step sch .gated (r2, ctx) x).1.1 := by
+  have i1 := inv_step sch .gated (r1, ctx) x hrel.i1
+  have i2 := inv_step sch .gated (r2, ctx) x hrel.i2
+  refine ⟨?_, i1, i2, ?_, (stale_step_plain sch .gated r1 ctx x hc).trans hrel.s1,
+    (stale_step_plain sch .gated r2 ctx x hc).trans hrel.s2⟩
   · cases x with
     | collect d =>
       simp only [step]
@@ -459,7 +535,7 @@ theorem step_rel (sch : Sch) (r1 r2 : Res) (ctx : Ctx) (x : Step) (hrel : Rel sc
           have hm : (p.1, d) ∈ r2.sel := by simpa using h2
           simpa using hrel.sub _ hm
     | memoCall k =>
-      have e1 : (step sch .current (r1, ctx) (.memoCall k)).2 = some (.memo (sch.pure k)) := by
+      have e1 : (step sch .gated (r1, ctx) (.memoCall k)).2 = some (.memo (sch.pure k)) := by
         simp only [step]
         split
         · rename_i v hv
@@ -467,7 +543,7 @@ theorem step_rel (sch : Sch) (r1 r2 : Res) (ctx : Ctx) (x : Step) (hrel : Rel sc
           simp only at this
           rw [this]
         · rfl
-      have e2 : (step sch .current (r2, ctx) (.memoCall k)).2 = some (.memo (sch.pure k)) := by
+      have e2 : (step sch .gated (r2, ctx) (.memoCall k)).2 = some (.memo (sch.pure k)) := by
         simp only [step]
         split
         · rename_i v hv
@@ -477,17 +553,19 @@ theorem step_rel (sch : Sch) (r1 r2 : Res) (ctx : Ctx) (x : Step) (hrel : Rel sc
         · rfl
       rw [e1, e2]
     | enter ids => rfl
-    | xsiType d t b => rfl
+    | xsiType d t b => simp only [step]; split <;> split <;> rfl
     | leave ids => rfl
     | setCtx c => rfl
     | scratchUse dirt => rfl
+    | wild a pc n => simp [stepPlain] at hc
+    | nsRead n => simp [stepPlain] at hc
   · cases x with
     | xsiType d t b =>
       cases b with
-      | some k => simp [stepComplete] at hc
+      | some k => simp [stepPlain] at hc
       | none =>
         intro p hp
-        simp only [step, budgeted, stepWrites] at hp ⊢
+        simp only [step, hrel.s1, hrel.s2, budgeted, stepWrites, Bool.false_eq_true, if_false] at hp ⊢
         rcases mem_sel_writes _ _ hp with hp | hp
         · exact sel_mono_writes _ _ (hrel.sub p hp)
         · simp only [xsiWrites] at hp ⊢
@@ -502,9 +580,9 @@ theorem step_rel (sch : Sch) (r1 r2 : Res) (ctx : Ctx) (x : Step) (hrel : Rel sc
           · simp at hp
     | memoCall k =>
       intro p hp
-      have b1 : (step sch .current (r1, ctx) (.memoCall k)).1.1.sel = r1.sel := by
+      have b1 : (step sch .gated (r1, ctx) (.memoCall k)).1.1.sel = r1.sel := by
         simp only [step]; split <;> rfl
-      have b2 : (step sch .current (r2, ctx) (.memoCall k)).1.1.sel = r2.sel := by
+      have b2 : (step sch .gated (r2, ctx) (.memoCall k)).1.1.sel = r2.sel := by
         simp only [step]; split <;> rfl
       rw [b1]; rw [b2] at hp; exact hrel.sub p hp
     | enter ids => exact hrel.sub
@@ -512,20 +590,22 @@ theorem step_rel (sch : Sch) (r1 r2 : Res) (ctx : Ctx) (x : Step) (hrel : Rel sc
     | leave ids => exact hrel.sub
     | setCtx c => exact hrel.sub
     | scratchUse dirt => exact hrel.sub
+    | wild a pc n => simp [stepPlain] at hc
+    | nsRead n => simp [stepPlain] at hc
 
 theorem step_pair (sch : Sch) (m : Mode) (r1 r2 : Res) (ctx : Ctx) (x : Step) :
     ∃ r1' r2' ctx', (step sch m (r1, ctx) x).1 = (r1', ctx') ∧ (step sch m (r2, ctx) x).1 = (r2', ctx') :=
   ⟨_, _, _, rfl, Prod.ext rfl (step_ctx sch m r2 r1 ctx x)⟩
 
 theorem neutral_gen (sch : Sch) : ∀ (doc : List Step) (r1 r2 : Res) (ctx : Ctx), Rel sch r1 r2 →
-    complete doc = true → selfSufficient sch (r2, ctx) doc = true →
-    (run sch .current (r1, ctx) doc).2 = (run sch .current (r2, ctx) doc).2
+    plainDoc doc = true → selfSufficient sch (r2, ctx) doc = true →
+    (run sch .gated (r1, ctx) doc).2 = (run sch .gated (r2, ctx) doc).2
   | [], _, _, _, _, _, _ => rfl
   | x :: xs, r1, r2, ctx, hrel, hc, hss => by
-    rw [complete_cons, Bool.and_eq_true] at hc
+    rw [plain_cons, Bool.and_eq_true] at hc
     rw [selfSufficient_cons, Bool.and_eq_true] at hss
     obtain ⟨ho, hrel'⟩ := step_rel sch r1 r2 ctx x hrel hc.1 hss.1
-    obtain ⟨r1', r2', ctx', e1, e2⟩ := step_pair sch .current r1 r2 ctx x
+    obtain ⟨r1', r2', ctx', e1, e2⟩ := step_pair sch .gated r1 r2 ctx x
     simp only [run]
     rw [e1] at hrel' ⊢
     rw [e2] at hrel' hss ⊢
@@ -534,12 +614,12 @@ theorem neutral_gen (sch : Sch) : ∀ (doc : List Step) (r1 r2 : Res) (ctx : Ctx
 /-- a document that is NOT self-sufficient has a (constraint, declaration) pair whose binding by an earlier
     call changes what the call sees -/
 theorem dependent_gen (sch : Sch) : ∀ (doc : List Step) (r2 : Res) (ctx : Ctx),
-    complete doc = true → selfSufficient sch (r2, ctx) doc = false →
+    plainDoc doc = true → selfSufficient sch (r2, ctx) doc = false →
     ∃ c d, Widenable sch c d ∧ ∀ r1, Rel sch r1 r2 → (c, d) ∈ r1.sel →
-      (run sch .current (r1, ctx) doc).2 ≠ (run sch .current (r2, ctx) doc).2
+      (run sch .gated (r1, ctx) doc).2 ≠ (run sch .gated (r2, ctx) doc).2
   | [], _, _, _, hss => by simp [selfSufficient] at hss
   | x :: xs, r2, ctx, hc, hss => by
-    rw [complete_cons, Bool.and_eq_true] at hc
+    rw [plain_cons, Bool.and_eq_true] at hc
     rw [selfSufficient_cons] at hss
     cases hok : stepOK sch (r2, ctx) x
     · -- the offending step
@@ -557,7 +637,7 @@ theorem dependent_gen (sch : Sch) : ∀ (doc : List Step) (r2 : Res) (ctx : Ctx)
         intro r1 _ hm heq
         simp only [run, step, Option.toList, List.cons_append, List.nil_append] at heq
         have hg := (Obs.collected.inj (List.cons.inj heq).1).2
-        have h1 : p.1 ∈ gate sch .current r1 ctx d := by
+        have h1 : p.1 ∈ gate sch .gated r1 ctx d := by
           simp only [gate, List.mem_map, List.mem_filter]
           refine ⟨p, ⟨hp, ?_⟩, rfl⟩
           simp only [hp2, isSel, Bool.true_and, Bool.or_eq_true, List.contains_iff_mem]
@@ -567,6 +647,8 @@ theorem dependent_gen (sch : Sch) : ∀ (doc : List Step) (r2 : Res) (ctx : Ctx)
         obtain ⟨q, ⟨_, hq⟩, hq1⟩ := h1
         rw [hq1] at hq
         simp [hs] at hq
+      | wild a pc n => simp [stepOK] at hok
+      | nsRead n => simp [stepOK] at hok
       | enter ids => simp [stepOK] at hok
       | xsiType d t b => simp [stepOK] at hok
       | leave ids => simp [stepOK] at hok
@@ -574,14 +656,14 @@ theorem dependent_gen (sch : Sch) : ∀ (doc : List Step) (r2 : Res) (ctx : Ctx)
       | memoCall k => simp [stepOK] at hok
       | scratchUse dirt => simp [stepOK] at hok
     · rw [hok, Bool.true_and] at hss
-      obtain ⟨r1d, r2', ctx', _, e2⟩ := step_pair sch .current r2 r2 ctx x
+      obtain ⟨r1d, r2', ctx', _, e2⟩ := step_pair sch .gated r2 r2 ctx x
       rw [e2] at hss
       obtain ⟨c, d, hw, hall⟩ := dependent_gen sch xs r2' ctx' hc.2 hss
       refine ⟨c, d, hw, ?_⟩
       intro r1 hrel hm
       obtain ⟨ho, hrel'⟩ := step_rel sch r1 r2 ctx x hrel hc.1 hok
-      obtain ⟨r1', r2'', ctx'', e1, e2'⟩ := step_pair sch .current r1 r2 ctx x
-      have hm' : (c, d) ∈ (step sch .current (r1, ctx) x).1.1.sel := (step_mono sch .current (r1, ctx) x).1 _ hm
+      obtain ⟨r1', r2'', ctx'', e1, e2'⟩ := step_pair sch .gated r1 r2 ctx x
+      have hm' : (c, d) ∈ (step sch .gated (r1, ctx) x).1.1.sel := (step_mono sch .gated (r1, ctx) x (stepPlain_notWild hc.1)).1 _ hm
       rw [e2] at e2'
       cases e2'
       rw [e1] at hrel' hm'
@@ -594,50 +676,212 @@ theorem dependent_gen (sch : Sch) : ∀ (doc : List Step) (r2 : Res) (ctx : Ctx)
 
 /-! ### the repaired collection (not gated by `selected_by`) -/
 
+theorem memo_obs (sch : Sch) (m : Mode) (r : Res) (ctx : Ctx) (k : Nat) (h : Inv sch r) :
+    (step sch m (r, ctx) (.memoCall k)).2 = some (.memo (sch.pure k)) := by
+  simp only [step]
+  split
+  · rename_i v hv
+    have := h.memo (k, v) (lookup_mem hv)
+    simp only at this
+    rw [this]
+  · rfl
+
+/-- a stable namespace is in the maps exactly when it was there after the build, whatever was loaded since -/
+theorem isLoaded_stable {sch : Sch} {r : Res} {n : Nat} (h : Inv sch r) (hs : nsStable sch n = true) :
+    isLoaded sch r n = sch.nsBase.contains n := by
+  simp only [isLoaded]
+  cases hb : sch.nsBase.contains n
+  · simp only [nsStable, hb, Bool.false_or, Bool.not_eq_true'] at hs
+    cases hl : r.loaded.contains n
+    · rfl
+    · have := h.loadedOK n (by simpa using hl)
+      have : sch.loadable.contains n = true := by simpa using this
+      rw [hs] at this; exact absurd this (by simp)
+  · rfl
+
+/-- a wildcard lookup in a stable namespace neither loads anything nor sees anything a history could change -/
+theorem wild_quiet {sch : Sch} {r : Res} (a : Bool) (pc : PC) (n : Nat) (h : Inv sch r)
+    (hq : stepQuiet sch (.wild a pc n) = true) :
+    wildStep sch .ungated r a pc n =
+      (r, match pc with | .skip => none | _ => some (.ns (sch.nsBase.contains n) false)) := by
+  cases pc with
+  | skip => rfl
+  | lax =>
+    have hs : nsStable sch n = true := by simpa [stepQuiet] using hq
+    simp only [wildStep, isLoaded_stable h hs]
+    cases hb : sch.nsBase.contains n
+    · have hb' : n ∉ sch.nsBase := by simpa using hb
+      have hnl : n ∉ sch.loadable := by simpa [nsStable, hb'] using hs
+      simp [hnl]
+    · simp
+  | strict =>
+    have hs : nsStable sch n = true := by simpa [stepQuiet] using hq
+    simp only [wildStep, isLoaded_stable h hs]
+    cases hb : sch.nsBase.contains n
+    · have hb' : n ∉ sch.nsBase := by simpa using hb
+      have hnl : n ∉ sch.loadable := by simpa [nsStable, hb'] using hs
+      simp [hnl]
+    · simp
+
+/-- one quiet step of the code as it is: same observation from any two residues -/
+theorem ungated_step (sch : Sch) (r1 r2 : Res) (ctx : Ctx) (x : Step) (h1 : Inv sch r1) (h2 : Inv sch r2)
+    (hq : stepQuiet sch x = true) :
+    (step sch .ungated (r1, ctx) x).2 = (step sch .ungated (r2, ctx) x).2 := by
+  cases x with
+  | collect d => simp [step, gate]
+  | memoCall k => rw [memo_obs sch _ r1 ctx k h1, memo_obs sch _ r2 ctx k h2]
+  | wild a pc n => simp only [step, wild_quiet a pc n h1 hq, wild_quiet a pc n h2 hq]
+  | nsRead n =>
+    have hs : nsStable sch n = true := by simpa [stepQuiet] using hq
+    simp only [step, isLoaded_stable h1 hs, isLoaded_stable h2 hs]
+  | enter ids => rfl
+  | xsiType d t b => simp only [step]; split <;> split <;> rfl
+  | leave ids => rfl
+  | setCtx c => rfl
+  | scratchUse dirt => rfl
+
+theorem quiet_cons (sch : Sch) (x : Step) (xs : List Step) :
+    nsQuiet sch (x :: xs) = (stepQuiet sch x && nsQuiet sch xs) := by
+  simp [nsQuiet]
+
 theorem ungated_gen (sch : Sch) : ∀ (doc : List Step) (r1 r2 : Res) (ctx : Ctx), Inv sch r1 → Inv sch r2 →
+    nsQuiet sch doc = true →
     (run sch .ungated (r1, ctx) doc).2 = (run sch .ungated (r2, ctx) doc).2
-  | [], _, _, _, _, _ => rfl
-  | x :: xs, r1, r2, ctx, h1, h2 => by
+  | [], _, _, _, _, _, _ => rfl
+  | x :: xs, r1, r2, ctx, h1, h2, hq => by
+    rw [quiet_cons, Bool.and_eq_true] at hq
     have i1 := inv_step sch .ungated (r1, ctx) x h1
     have i2 := inv_step sch .ungated (r2, ctx) x h2
     obtain ⟨r1', r2', ctx', e1, e2⟩ := step_pair sch .ungated r1 r2 ctx x
-    have ho : (step sch .ungated (r1, ctx) x).2 = (step sch .ungated (r2, ctx) x).2 := by
-      cases x with
-      | collect d => simp [step, gate]
-      | memoCall k =>
-        have e1 : (step sch .ungated (r1, ctx) (.memoCall k)).2 = some (.memo (sch.pure k)) := by
-          simp only [step]
-          split
-          · rename_i v hv
-            have := h1.memo (k, v) (lookup_mem hv)
-            simp only at this
-            rw [this]
-          · rfl
-        have e2 : (step sch .ungated (r2, ctx) (.memoCall k)).2 = some (.memo (sch.pure k)) := by
-          simp only [step]
-          split
-          · rename_i v hv
-            have := h2.memo (k, v) (lookup_mem hv)
-            simp only at this
-            rw [this]
-          · rfl
-        rw [e1, e2]
-      | enter ids => rfl
-      | xsiType d t b => rfl
-      | leave ids => rfl
-      | setCtx c => rfl
-      | scratchUse dirt => rfl
+    have ho := ungated_step sch r1 r2 ctx x h1 h2 hq.1
     simp only [run]
     rw [e1] at i1 ⊢
     rw [e2] at i2 ⊢
-    rw [ho, ungated_gen sch xs r1' r2' ctx' i1 i2]
+    rw [ho, ungated_gen sch xs r1' r2' ctx' i1 i2 hq.2]
+
+/-- loaded namespaces stay loaded -/
+theorem loaded_mono_step (sch : Sch) (m : Mode) (s : Res × Ctx) (x : Step) {n : Nat} (h : n ∈ s.1.loaded) :
+    n ∈ (step sch m s x).1.1.loaded := by
+  cases x with
+  | xsiType d t b =>
+    simp only [step]
+    split
+    · exact h
+    · rw [loaded_writes]; exact h
+  | wild a pc k =>
+    simp only [step]
+    rcases wild_fst sch m s.1 a pc k with e | ⟨e, _, _⟩
+    · rw [e]; exact h
+    · rw [e]; exact List.mem_cons_of_mem _ h
+  | memoCall k => simp only [step]; split <;> exact h
+  | nsRead k => exact h
+  | enter ids => exact h
+  | collect d => exact h
+  | leave ids => exact h
+  | setCtx c => exact h
+  | scratchUse dirt => exact h
+
+/-- a quiet step of a run that has loaded nothing loads nothing -/
+theorem loaded_nil_step (sch : Sch) (r : Res) (ctx : Ctx) (x : Step) (hi : Inv sch r) (h : r.loaded = [])
+    (hq : stepQuiet sch x = true) : (step sch .ungated (r, ctx) x).1.1.loaded = [] := by
+  cases x with
+  | xsiType d t b =>
+    simp only [step]
+    split
+    · exact h
+    · rw [loaded_writes]; exact h
+  | wild a pc k => simp only [step, wild_quiet a pc k hi hq]; exact h
+  | memoCall k => simp only [step]; split <;> exact h
+  | nsRead k => exact h
+  | enter ids => exact h
+  | collect d => exact h
+  | leave ids => exact h
+  | setCtx c => exact h
+  | scratchUse dirt => exact h
+
+/-- a document that is NOT quiet meets a loadable namespace; whether an earlier call loaded it changes what
+    the call sees (a rebuild in the middle of the call or not; the root found or not) -/
+theorem ns_dependent_gen (sch : Sch) : ∀ (doc : List Step) (r2 : Res) (ctx : Ctx), Inv sch r2 → r2.loaded = [] →
+    nsQuiet sch doc = false →
+    ∃ n, n ∈ sch.loadable ∧ n ∉ sch.nsBase ∧ ∀ r1, Inv sch r1 → n ∈ r1.loaded →
+      (run sch .ungated (r1, ctx) doc).2 ≠ (run sch .ungated (r2, ctx) doc).2
+  | [], _, _, _, _, hq => by simp [nsQuiet] at hq
+  | x :: xs, r2, ctx, h2, hl, hq => by
+    rw [quiet_cons] at hq
+    cases hx : stepQuiet sch x
+    · -- the offending step
+      cases x with
+      | wild a pc n =>
+        have hpc : pc ≠ .skip := by
+          intro e; subst e; simp [stepQuiet] at hx
+        have hs : nsStable sch n = false := by
+          cases h : nsStable sch n
+          · rfl
+          · simp [stepQuiet, h] at hx
+        simp only [nsStable, Bool.or_eq_false_iff, Bool.not_eq_false'] at hs
+        have hb' : n ∉ sch.nsBase := by simpa using hs.1
+        have hl' : n ∈ sch.loadable := by simpa using hs.2
+        refine ⟨n, hl', hb', ?_⟩
+        intro r1 _ hm heq
+        have l1 : isLoaded sch r1 n = true := by
+          simp only [isLoaded, Bool.or_eq_true]; exact Or.inr (by simpa using hm)
+        have l2 : isLoaded sch r2 n = false := by
+          simp [isLoaded, hb', hl]
+        cases pc with
+        | skip => exact hpc rfl
+        | lax =>
+          simp [run, step, wildStep, l1, l2, hl'] at heq
+        | strict =>
+          simp [run, step, wildStep, l1, l2, hl'] at heq
+      | nsRead n =>
+        have hs : nsStable sch n = false := by
+          cases h : nsStable sch n
+          · rfl
+          · simp [stepQuiet, h] at hx
+        simp only [nsStable, Bool.or_eq_false_iff, Bool.not_eq_false'] at hs
+        have hb' : n ∉ sch.nsBase := by simpa using hs.1
+        have hl' : n ∈ sch.loadable := by simpa using hs.2
+        refine ⟨n, hl', hb', ?_⟩
+        intro r1 _ hm heq
+        have l1 : isLoaded sch r1 n = true := by
+          simp only [isLoaded, Bool.or_eq_true]; exact Or.inr (by simpa using hm)
+        have l2 : isLoaded sch r2 n = false := by
+          simp [isLoaded, hb', hl]
+        simp [run, step, l1, l2] at heq
+      | enter ids => simp [stepQuiet] at hx
+      | xsiType d t b => simp [stepQuiet] at hx
+      | collect d => simp [stepQuiet] at hx
+      | leave ids => simp [stepQuiet] at hx
+      | setCtx c => simp [stepQuiet] at hx
+      | memoCall k => simp [stepQuiet] at hx
+      | scratchUse dirt => simp [stepQuiet] at hx
+    · rw [hx, Bool.true_and] at hq
+      obtain ⟨r2a, r2', ctx', _, e2⟩ := step_pair sch .ungated r2 r2 ctx x
+      have i2 := inv_step sch .ungated (r2, ctx) x h2
+      have hl' := loaded_nil_step sch r2 ctx x h2 hl hx
+      rw [e2] at i2 hl'
+      obtain ⟨n, hn, hnb, hall⟩ := ns_dependent_gen sch xs r2' ctx' i2 hl' hq
+      refine ⟨n, hn, hnb, ?_⟩
+      intro r1 h1 hm
+      have ho := ungated_step sch r1 r2 ctx x h1 h2 hx
+      obtain ⟨r1', r2'', ctx'', e1, e2'⟩ := step_pair sch .ungated r1 r2 ctx x
+      have i1 := inv_step sch .ungated (r1, ctx) x h1
+      have hm' := loaded_mono_step sch .ungated (r1, ctx) x hm
+      rw [e2] at e2'
+      cases e2'
+      rw [e1] at i1 hm'
+      have hne := hall r1' i1 hm'
+      simp only [run]
+      rw [e1, e2, ho]
+      intro heq
+      exact hne (List.append_cancel_left heq)
 
 /-! ### histories -/
 
 theorem inv_call (sch : Sch) (m : Mode) (r : Res) (doc : List Step) (h : Inv sch r) :
     Inv sch (call sch m r doc).1 := by
   simp only [call]
-  exact inv_run sch m doc (r, []) h
+  exact inv_run sch m doc ({ r with stale := false }, []) (inv_unstale h)
 
 theorem inv_foldl (sch : Sch) (m : Mode) (hist : List (List Step)) (r : Res) (h : Inv sch r) :
     Inv sch (hist.foldl (fun r doc => (call sch m r doc).1) r) := by
@@ -648,13 +892,14 @@ theorem inv_foldl (sch : Sch) (m : Mode) (hist : List (List Step)) (r : Res) (h 
 theorem inv_after (sch : Sch) (m : Mode) (hist : List (List Step)) : Inv sch (after sch m hist) :=
   inv_foldl sch m hist _ (inv_init sch)
 
-theorem complete_take : ∀ (doc : List Step) (k : Nat), complete doc = true → complete (doc.take k) = true
-  | [], _, _ => by simp [complete]
-  | _ :: _, 0, _ => by simp [complete]
-  | x :: xs, k + 1, h => by
-    rw [List.take_succ_cons, complete_cons, Bool.and_eq_true]
-    rw [complete_cons, Bool.and_eq_true] at h
-    exact ⟨h.1, complete_take xs k h.2⟩
+theorem plain_take (doc : List Step) (k : Nat) (h : plainDoc doc = true) : plainDoc (doc.take k) = true := by
+  simp only [plainDoc, List.all_eq_true] at h ⊢
+  exact fun x hx => h x (List.mem_of_mem_take hx)
+
+theorem quiet_take (sch : Sch) (doc : List Step) (k : Nat) (h : nsQuiet sch doc = true) :
+    nsQuiet sch (doc.take k) = true := by
+  simp only [nsQuiet, List.all_eq_true] at h ⊢
+  exact fun x hx => h x (List.mem_of_mem_take hx)
 
 theorem selfSufficient_take (sch : Sch) : ∀ (doc : List Step) (k : Nat) (s : Res × Ctx),
     selfSufficient sch s doc = true → selfSufficient sch s (doc.take k) = true
